@@ -18,6 +18,7 @@ import (
 	"fmt"
 	"math/rand"
 	"net"
+	"strconv"
 	"sync"
 	"sync/atomic"
 	"time"
@@ -262,6 +263,22 @@ func buildRequest(s reqSpec, obj string) []byte {
 		Context: map[string]string{vworld.TokenKey: s.Token}, Status: map[string]string{}}).Encode()
 }
 
+// udpDrops returns the kernel's dropped-datagram counters of the server's and the client's socket.
+func udpDrops(w *vworld.World, cl *client) (server, client int64) {
+	_, sp := netlab.HostPort(w.Conf.Address)
+	spn, _ := strconv.Atoi(sp)
+	cpn := 0
+	if la, ok := cl.conn.LocalAddr().(*net.UDPAddr); ok {
+		cpn = la.Port
+	}
+	return netlab.UDPDrops(spn), netlab.UDPDrops(cpn)
+}
+
+func udpLossSeen(w *vworld.World, cl *client) bool {
+	ds, dc := udpDrops(w, cl)
+	return ds != 0 || dc != 0
+}
+
 // judge checks one request's responses against its spec.
 func judge(cfg srvCfg, w *vworld.World, cl *client, s reqSpec, wit func(map[string]interface{}) map[string]interface{}) bool {
 	locus := fmt.Sprintf("%s:v%d:%s", cfg.Proto, s.Version, s.Kind)
@@ -270,9 +287,22 @@ func judge(cfg srvCfg, w *vworld.World, cl *client, s reqSpec, wit func(map[stri
 		wantResponses = 0
 	}
 	if wantResponses == 1 {
-		waitFor(func() bool { return len(cl.responses(s.ID)) >= 1 }, 8*time.Second)
+		patience := 8 * time.Second
+		if cfg.Proto == "udp" && udpLossSeen(w, cl) {
+			patience = 300 * time.Millisecond // the answer may never come; the burst was sent long ago
+		}
+		waitFor(func() bool { return len(cl.responses(s.ID)) >= 1 }, patience)
 	}
 	rs := cl.responses(s.ID)
+	if cfg.Proto == "udp" && len(rs) < wantResponses {
+		// a datagram the kernel threw away (receive buffer of the server's or of this client's
+		// socket full) says nothing about the server
+		if ds, dc := udpDrops(w, cl); ds != 0 || dc != 0 {
+			run.Add("udp_requests_not_judged_kernel_dropped_datagrams", 1)
+			run.Inconclusive(fmt.Sprintf("udp request id %d unanswered while the kernel reports dropped datagrams (server socket drops=%d, client socket drops=%d; -1 = unreadable)", s.ID, ds, dc))
+			return true
+		}
+	}
 	if len(rs) != wantResponses {
 		cls := "response-count"
 		if s.OneWay {
@@ -289,6 +319,15 @@ func judge(cfg srvCfg, w *vworld.World, cl *client, s reqSpec, wit func(map[stri
 	}
 	if s.OneWay || wantExec == 1 {
 		waitFor(func() bool { return len(w.Servant.ReceivedFor(s.Token)) >= wantExec }, 3*time.Second)
+	}
+	if n := len(w.Servant.ReceivedFor(s.Token)); cfg.Proto == "udp" && n < wantExec {
+		_, sp := netlab.HostPort(w.Conf.Address)
+		spn, _ := strconv.Atoi(sp)
+		if ds := netlab.UDPDrops(spn); ds != 0 {
+			run.Add("udp_requests_not_judged_kernel_dropped_datagrams", 1)
+			run.Inconclusive(fmt.Sprintf("udp request id %d not executed while the kernel reports dropped datagrams on the server socket (drops=%d; -1 = unreadable)", s.ID, ds))
+			return true
+		}
 	}
 	if n := len(w.Servant.ReceivedFor(s.Token)); n != wantExec {
 		run.Violation("execution-count", locus, fmt.Sprintf("request id %d (%s): the implementation ran %d times, expected %d; server %s", s.ID, s.Kind, n, wantExec, cfg), wit(map[string]interface{}{"request": s, "executions": n}))
@@ -446,10 +485,18 @@ func runConfig(cfg srvCfg, ci int) {
 		go func(c *client, ss []reqSpec) {
 			defer wg.Done()
 			if cfg.Proto == "udp" {
-				for _, s := range ss {
+				// datagrams are not flow-controlled: keep at most ~16 answers outstanding per socket so
+				// that neither receive buffer overflows (an overflow is accounted for in judge)
+				twoWay := 0
+				for k, s := range ss {
 					c.conn.Write(buildRequest(s, obj))
-					if r.Intn(4) == 0 {
-						time.Sleep(200 * time.Microsecond)
+					if !s.OneWay {
+						twoWay++
+					}
+					if k%16 == 15 {
+						time.Sleep(time.Millisecond) // one-way requests have no answer to wait for
+						want := twoWay - 16
+						waitFor(func() bool { c.mu.Lock(); n := len(c.got); c.mu.Unlock(); return n >= want }, 300*time.Millisecond)
 					}
 				}
 				return
@@ -479,7 +526,9 @@ func runConfig(cfg srvCfg, ci int) {
 			if s.OneWay {
 				want = 0
 			}
-			if n := len(c.responses(s.ID)); n != want {
+			if n := len(c.responses(s.ID)); n < want && cfg.Proto == "udp" && udpLossSeen(w, c) {
+				continue // already counted as not judged: the kernel dropped datagrams on this socket pair
+			} else if n != want {
 				run.Violation("response-count", fmt.Sprintf("%s:v%d:%s:late", cfg.Proto, s.Version, s.Kind), fmt.Sprintf("request id %d has %d responses after quiescence, expected %d", s.ID, n, want), witBase(map[string]interface{}{"request": s}))
 				return
 			}
